@@ -195,6 +195,9 @@ func genEPUB(r *hx.Rng) *pkg {
 	// repeated spine resources (repeats.go; own stream): a resource listed several times in
 	// the spine is one part, at its first position
 	p.addEPUBRepeats(r.Fork(0x5e9ea7), &manifest, &spine)
+	// content documents whose member NAME holds escape-looking text, "part%201.xhtml", referred
+	// to as href="part%25201.xhtml" (pcthex.go; own stream): an href is decoded exactly once
+	p.addEPUBPctHex(r.Fork(0x9c25), used, &manifest, &spine)
 	// navigation: EPUB 3 nav document, EPUB 2 NCX (either may be missing; EPUB 3 may carry both)
 	navTok, ncxTok := token(r, 90), token(r, 91)
 	hasNav := v3 && r.Chance(5, 6)
